@@ -291,7 +291,7 @@ func c07GenGPUMem(t *rapid.T, label string) int64 {
 }
 
 func c07GenDevRes(t *rapid.T, dt schedulingv1alpha1.DeviceType, gpuMem int64) map[corev1.ResourceName]int64 {
-	zero := rapid.IntRange(0, 11).Draw(t, "zeroRes") == 0 // a healthy device that reports nothing
+	zero := rapid.IntRange(0, 15).Draw(t, "zeroRes") == 0 // a healthy device that reports nothing
 	if dt == schedulingv1alpha1.GPU {
 		if zero {
 			if rapid.Bool().Draw(t, "zeroAsEmpty") {
@@ -339,7 +339,7 @@ func c07GenInventory(t *rapid.T) []c07Dev {
 			}
 			d := c07Dev{Type: dt, Minor: minor, NUMA: -1}
 			d.Res = c07GenDevRes(t, dt, m)
-			d.Health = rapid.IntRange(0, 5).Draw(t, "healthy") > 0
+			d.Health = rapid.IntRange(0, 7).Draw(t, "healthy") > 0
 			if topoMode == 1 || (topoMode == 2 && rapid.Bool().Draw(t, "hasTopo")) {
 				d.NUMA = i * numaN / n
 				d.PCIe = d.NUMA*10 + rapid.IntRange(0, 1).Draw(t, "pcie")
@@ -513,6 +513,16 @@ func c07GenRequest(t *rapid.T, h c07Hints, memMode int) c07Request {
 		for _, s := range strings.Split(which, "+") {
 			if h.n[schedulingv1alpha1.DeviceType(s)] > 0 {
 				keep = append(keep, s)
+			}
+		}
+		if len(keep) == 0 {
+			for _, dt := range c07Types {
+				if h.n[dt] > 0 {
+					keep = append(keep, string(dt))
+				}
+			}
+			if len(keep) > 1 {
+				keep = []string{rapid.SampledFrom(keep).Draw(t, "presentType")}
 			}
 		}
 		if len(keep) > 0 {
@@ -724,14 +734,18 @@ func c07AllocStr(a apiext.DeviceAllocations) string {
 // checkAllocation is the allocation oracle: validity on success, completeness on refusal. free is the model's
 // free map just before the call. Returns true when the case must be abandoned (known finding).
 func (w *c07World) checkAllocation(c *vk.Case, t *rapid.T, req c07Request, free c07Flat, result apiext.DeviceAllocations, msg string, ctx func() string) bool {
-	// how many devices of each asked type could serve one per-device request right now
-	feasible := true
+	// How many devices of each asked type could serve one per-device request right now. For the completeness direction a
+	// GPU only counts when the other view of its memory (bytes for a ratio request, ratio for a bytes request, which the
+	// plugin charges too when it commits) also fits, rounded against the request: an allocator that compares both views
+	// is as correct as one that compares only the requested one, so a refusal is an alarm only under the stricter reading.
+	feasible, feasibleWeak := true, true
 	qualifying := map[schedulingv1alpha1.DeviceType][]int{}
 	for _, dt := range c07Types {
 		per, ok := req.Per[dt]
 		if !ok {
 			continue
 		}
+		weak := 0
 		for _, d := range w.devsOf(dt) {
 			fits := true
 			for rn, v := range per {
@@ -739,14 +753,31 @@ func (w *c07World) checkAllocation(c *vk.Case, t *rapid.T, req c07Request, free 
 					fits = false
 				}
 			}
-			if fits {
-				qualifying[dt] = append(qualifying[dt], d.Minor)
+			if !fits {
+				continue
 			}
+			weak++
+			if dt == schedulingv1alpha1.GPU {
+				total := d.Res[apiext.ResourceGPUMemory]
+				ratio, hasRatio := per[apiext.ResourceGPUMemoryRatio]
+				mem, hasMem := per[apiext.ResourceGPUMemory]
+				if hasRatio && !hasMem && free[c07Key(dt, d.Minor, apiext.ResourceGPUMemory)] < (ratio*total+99)/100 {
+					continue
+				}
+				if hasMem && !hasRatio && total > 0 && free[c07Key(dt, d.Minor, apiext.ResourceGPUMemoryRatio)] < (100*mem+total-1)/total {
+					continue
+				}
+			}
+			qualifying[dt] = append(qualifying[dt], d.Minor)
 		}
 		if len(qualifying[dt]) < req.Count[dt] {
 			feasible = false
 		}
+		if weak < req.Count[dt] {
+			feasibleWeak = false
+		}
 	}
+	c.ClassIf(feasibleWeak && !feasible, "only-the-unrequested-memory-view-is-short(completeness not asserted)")
 	if result == nil {
 		if strings.HasPrefix(msg, "prepare:") {
 			c.Class("request-rejected-before-allocation")
@@ -841,7 +872,7 @@ func (w *c07World) checkLedger(c *vk.Case, t *rapid.T, capacityHolds bool, ctx f
 		want := total[k] - used[k]
 		if want < 0 {
 			want = 0 // capacity was removed from under running pods: free cannot go negative
-			c.Class("used>total-after-capacity-loss(legitimate)")
+			c.ClassIf(!capacityHolds, "used>total-after-capacity-loss(legitimate)")
 		}
 		if free[k] != want {
 			return c.Violation(t, "ledger:free-ne-total-minus-used", "%s: free %d, total %d, used %d; %s", k, free[k], total[k], used[k], ctx())
@@ -942,8 +973,9 @@ func TestVerifC07History(t *testing.T) {
 		defer c.End()
 		w := c07NewWorld(t)
 		allowLoss := rapid.Bool().Draw(t, "allowCapacityLoss")
-		var hist []string
-		hist = append(hist, "inventory: "+w.invString())
+		var hist, fp []string // fp: the history without koordinator's status messages (their wording may depend on Go map order)
+		note := func(e string) { hist, fp = append(hist, e), append(fp, e) }
+		note("inventory: " + w.invString())
 		ctx := func() string { return "history=[" + strings.Join(hist, " ; ") + "]" }
 		dead := false
 		capacityHolds := true
@@ -982,7 +1014,9 @@ func TestVerifC07History(t *testing.T) {
 			pod := c07NewPod(name, req.Pod)
 			free := c07Free(w.modelTotal(), w.modelUsed())
 			result, msg := w.tryAllocate(pod, realPath)
-			hist = append(hist, fmt.Sprintf("allocate %s [%s] filterPath=%v -> %s%s", name, req.Desc, realPath, c07AllocStr(result), c07Msg(msg)))
+			entry := fmt.Sprintf("allocate %s [%s] filterPath=%v -> %s", name, req.Desc, realPath, c07AllocStr(result))
+			hist = append(hist, entry+c07Msg(msg))
+			fp = append(fp, entry)
 			if w.checkAllocation(c, t, req, free, result, msg, ctx) {
 				return nil, true
 			}
@@ -1023,12 +1057,12 @@ func TestVerifC07History(t *testing.T) {
 				switch rapid.IntRange(0, 2).Draw(t, "commitVia") {
 				case 0:
 					w.cache.onPodAdd(p.Bound)
-					hist = append(hist, "commit "+name+" via podAdd")
+					note("commit " + name + " via podAdd")
 				default:
 					nd.lock.Lock()
 					nd.updateCacheUsed(p.Alloc, p.Sched, true)
 					nd.lock.Unlock()
-					hist = append(hist, "commit "+name+" via Reserve")
+					note("commit " + name + " via Reserve")
 				}
 				w.live[name] = p
 				noteSharing()
@@ -1047,19 +1081,19 @@ func TestVerifC07History(t *testing.T) {
 				switch rapid.IntRange(0, 3).Draw(t, "dupKind") {
 				case 0:
 					w.cache.onPodAdd(p.Bound)
-					hist = append(hist, "podAdd again "+p.Name)
+					note("podAdd again " + p.Name)
 				case 1: // the bind event following Reserve: old has neither node nor annotation
 					w.cache.onPodUpdate(p.Sched, p.Bound)
-					hist = append(hist, "podUpdate unbound->bound "+p.Name)
+					note("podUpdate unbound->bound " + p.Name)
 				case 2: // resync / status update: same allocation on both sides
 					w.cache.onPodUpdate(p.Bound, p.Bound.DeepCopy())
-					hist = append(hist, "podUpdate unchanged "+p.Name)
+					note("podUpdate unchanged " + p.Name)
 				default: // Reserve-style commit repeated
 					nd := w.cache.getNodeDevice(c07Node, false)
 					nd.lock.Lock()
 					nd.updateCacheUsed(p.Alloc, p.Sched, true)
 					nd.lock.Unlock()
-					hist = append(hist, "Reserve-commit again "+p.Name)
+					note("Reserve-commit again " + p.Name)
 				}
 				p.Dup = true
 				sawDup = true
@@ -1096,7 +1130,7 @@ func TestVerifC07History(t *testing.T) {
 						t.Fatalf("cannot annotate pod: %v", err)
 					}
 					np = &c07Live{Name: old.Name, Sched: old.Sched, Bound: bound, Alloc: alloc, Flat: c07AllocFlat(alloc), Requested: old.Requested}
-					hist = append(hist, fmt.Sprintf("podUpdate %s allocation reduced to %s", old.Name, c07AllocStr(alloc)))
+					note(fmt.Sprintf("podUpdate %s allocation reduced to %s", old.Name, c07AllocStr(alloc)))
 				} else {
 					var abandon bool
 					np, abandon = allocate(t, old.Name)
@@ -1107,7 +1141,7 @@ func TestVerifC07History(t *testing.T) {
 					if np == nil {
 						return
 					}
-					hist = append(hist, fmt.Sprintf("podUpdate %s allocation replaced", old.Name))
+					note(fmt.Sprintf("podUpdate %s allocation replaced", old.Name))
 				}
 				w.cache.onPodUpdate(old.Bound, np.Bound)
 				np.Dup, np.Refreshed = old.Dup, old.Refreshed
@@ -1126,23 +1160,23 @@ func TestVerifC07History(t *testing.T) {
 				switch rapid.IntRange(0, 3).Draw(t, "releaseVia") {
 				case 0:
 					w.cache.onPodDelete(p.Bound)
-					hist = append(hist, "podDelete "+p.Name)
+					note("podDelete " + p.Name)
 				case 1:
 					done := p.Bound.DeepCopy()
 					done.Status.Phase = rapid.SampledFrom([]corev1.PodPhase{corev1.PodSucceeded, corev1.PodFailed}).Draw(t, "phase")
 					w.cache.onPodUpdate(p.Bound, done)
-					hist = append(hist, "podUpdate terminated "+p.Name)
+					note("podUpdate terminated " + p.Name)
 				case 2: // another scheduler un-assigned the pod
 					un := p.Bound.DeepCopy()
 					un.Spec.NodeName = ""
 					w.cache.onPodUpdate(p.Bound, un)
-					hist = append(hist, "podUpdate unassigned "+p.Name)
+					note("podUpdate unassigned " + p.Name)
 				default: // Unreserve
 					nd := w.cache.getNodeDevice(c07Node, false)
 					nd.lock.Lock()
 					nd.updateCacheUsed(p.Alloc, p.Sched, false)
 					nd.lock.Unlock()
-					hist = append(hist, "Unreserve "+p.Name)
+					note("Unreserve " + p.Name)
 				}
 				delete(w.live, p.Name)
 				released = append(released, p)
@@ -1169,13 +1203,13 @@ func TestVerifC07History(t *testing.T) {
 				p := cands[rapid.IntRange(0, len(cands)-1).Draw(t, "pod")]
 				if rapid.Bool().Draw(t, "viaInformer") {
 					w.cache.onPodDelete(p.Bound)
-					hist = append(hist, "podDelete again "+p.Name)
+					note("podDelete again " + p.Name)
 				} else {
 					nd := w.cache.getNodeDevice(c07Node, false)
 					nd.lock.Lock()
 					nd.updateCacheUsed(p.Alloc, p.Sched, false)
 					nd.lock.Unlock()
-					hist = append(hist, "Unreserve again "+p.Name)
+					note("Unreserve again " + p.Name)
 				}
 				sawTwice = true
 			},
@@ -1293,7 +1327,7 @@ func TestVerifC07History(t *testing.T) {
 					}
 					w.invalidated = false
 				}
-				hist = append(hist, fmt.Sprintf("refresh(%s): %s", kind, w.invString()))
+				note(fmt.Sprintf("refresh(%s): %s", kind, w.invString()))
 				if loss {
 					capacityHolds = false
 					if len(w.live) > 0 {
@@ -1325,7 +1359,7 @@ func TestVerifC07History(t *testing.T) {
 		c.ClassIf(ntRefreshBetween, "nt:refresh-between-allocate-and-release")
 		c.Class(fmt.Sprintf("memMode:%d", w.memMode))
 		if ntDupThenRelease || ntRefreshBetween {
-			c.NonTrivial(hist)
+			c.NonTrivial(fp)
 		}
 		c.Sample(map[string]any{"history": hist})
 	})
@@ -1500,6 +1534,16 @@ func TestVerifC07Allocate(t *testing.T) {
 				margin = q - req.Count[dt]
 			}
 		}
+		typeAbsent, typeUnusable := false, false
+		for dt := range req.Per {
+			if h.n[dt] == 0 {
+				typeAbsent = true
+			} else if len(h.usable[dt]) == 0 {
+				typeUnusable = true
+			}
+		}
+		c.ClassIf(typeAbsent, "asked-type-not-reported")
+		c.ClassIf(typeUnusable, "asked-type-has-no-usable-device")
 		c.ClassIf(hasUnhealthy, "unhealthy-device")
 		c.ClassIf(hasZero, "healthy-zero-resource-device")
 		c.ClassIf(hasTopo, "topology-reported")
